@@ -55,6 +55,33 @@ example : adaptiveFunctor .u8 false 0 3 255 10 = some 255 ∧ adaptiveSpec false
 example : meanSurfaceOk 3 [9, 9, 9, 9, 9, 9, 9, 9, 9] 9 = true ∧ meanSurfaceOk 3 [9, 9, 9, 9, 9, 9, 9, 9, 9] 7 = true
     ∧ meanSurfaceOk 3 [9, 9, 9, 9, 9, 9, 9, 9, 9] 10 = false ∧ meanSurfaceOk 3 [9, 9, 9, 9, 9, 9, 9, 9, 9] 6 = false := by decide
 
+/-- why the judge's Spec of the `mean` threshold surface is `S − 2k² ≤ k²·T ≤ S` (`meanSurfaceOk`): `threshold_adaptive` runs a row pass and
+    a column pass with weights 1/k and stores each result truncated to the channel type.  If every in-image row of the window has
+    exact (zero-padded) sum S_j and stored value r_j with S_j/k − 1 ≤ r_j ≤ S_j/k, and the column pass stores T with
+    (Σ r_j)/k − 1 ≤ T ≤ (Σ r_j)/k, then T lies within [M − 2, M] of the exact box mean M = (Σ S_j)/k²; pure integer arithmetic, any k -/
+theorem C16_adaptive_mean_bounds (k : Nat) (rows : List (Int × Int)) (hlen : rows.length ≤ k)
+    (hrow : ∀ p ∈ rows, (k : Int) * p.2 ≤ p.1 ∧ p.1 ≤ (k : Int) * p.2 + (k : Int))
+    (T : Int) (hT : (k : Int) * T ≤ (rows.map (·.2)).sum ∧ (rows.map (·.2)).sum ≤ (k : Int) * T + (k : Int)) :
+    (rows.map (·.1)).sum - 2 * ((k : Int) * (k : Int)) ≤ ((k : Int) * (k : Int)) * T
+    ∧ ((k : Int) * (k : Int)) * T ≤ (rows.map (·.1)).sum := by
+  obtain ⟨h1, h2⟩ := rows_trunc_bound (k : Int) rows hrow
+  have hk0 : (0 : Int) ≤ (k : Int) := by omega
+  have a1 := Int.mul_le_mul_of_nonneg_left hT.1 hk0
+  have a2 := Int.mul_le_mul_of_nonneg_left hT.2 hk0
+  have a3 : (k : Int) * (rows.length : Int) ≤ (k : Int) * (k : Int) := Int.mul_le_mul_of_nonneg_left (by omega) hk0
+  rw [Int.mul_add] at a2
+  rw [Int.mul_assoc]
+  generalize (k : Int) * ((k : Int) * T) = kkT at *
+  generalize (k : Int) * (k : Int) = kk at *
+  generalize (k : Int) * (rows.length : Int) = kn at *
+  generalize (k : Int) * (rows.map (·.2)).sum = kB at *
+  omega
+
+/-- hypotheses of `C16_adaptive_mean_bounds` on a 3×3 window of three rows (sums 10, 20, 30; stored 3, 6, 10; stored T = 6; M = 60/9) -/
+example : ([((10 : Int), (3 : Int)), (20, 6), (30, 10)].length ≤ 3)
+    ∧ (∀ p ∈ [((10 : Int), (3 : Int)), (20, 6), (30, 10)], ((3 : Nat) : Int) * p.2 ≤ p.1 ∧ p.1 ≤ ((3 : Nat) : Int) * p.2 + ((3 : Nat) : Int))
+    ∧ (((3 : Nat) : Int) * 6 ≤ ([((10 : Int), (3 : Int)), (20, 6), (30, 10)].map (·.2)).sum) := by decide
+
 /-! ### Otsu -/
 
 /-- the histogram index computed from the scanned min/max lies in [0,255] (generated expression) -/
@@ -488,6 +515,108 @@ theorem C16_model_opening_le_src_le_closing (src : Int → Int → Int) (w h : N
       erodeP_congr (imagePts w h) (nbK ker ks cy cx) _ (dilateP (imagePts w h) (nbK ker ks cy cx) (fun p => src p.1 p.2))
         ((x : Int), (y : Int)) (hD _ hp) hD]
     exact L.2
+
+private theorem erodeFn_eq (w h : Nat) (ker : List Int) (ks cy cx : Nat) (g : Int → Int → Int) (q : Int × Int) (hq : q ∈ imagePts w h) :
+    erodeFn w h ker ks cy cx g q.1 q.2 = erodeP (imagePts w h) (nbK ker ks cy cx) (fun p => g p.1 p.2) q := by
+  have hin := (mem_imagePts w h q).mp hq
+  unfold inImg at hin
+  have hpt : q = ((q.1.toNat : Int), (q.2.toNat : Int)) := by apply Prod.ext <;> simp only <;> omega
+  unfold erodeFn
+  rw [(C16_morph_is_erode_dilate g w h ker ks cy cx q.1.toNat q.2.toNat).1, ← hpt]
+
+private theorem dilateFn_eq (w h : Nat) (ker : List Int) (ks cy cx : Nat) (g : Int → Int → Int) (q : Int × Int) (hq : q ∈ imagePts w h) :
+    dilateFn w h ker ks cy cx g q.1 q.2 = dilateP (imagePts w h) (nbK ker ks cy cx) (fun p => g p.1 p.2) q := by
+  have hin := (mem_imagePts w h q).mp hq
+  unfold inImg at hin
+  have hpt : q = ((q.1.toNat : Int), (q.2.toNat : Int)) := by apply Prod.ext <;> simp only <;> omega
+  unfold dilateFn
+  rw [(C16_morph_is_erode_dilate g w h ker ks cy cx q.1.toNat q.2.toNat).2, ← hpt]
+
+/-- idempotence of opening and closing on the `morph_impl` model itself (compositions of `erodeFn` / `dilateFn`): for a
+    point-symmetric structuring element, every image size and every pixel of the image -/
+theorem C16_model_open_close_idempotent (src : Int → Int → Int) (w h : Nat) (ker : List Int) (ks cy cx : Nat)
+    (hsym : ∀ r c, r < ks → c < ks → ker.getD (r * ks + c) 0 ≠ 0 →
+      2 * cy - r < ks ∧ 2 * cx - c < ks ∧ r ≤ 2 * cy ∧ c ≤ 2 * cx ∧ ker.getD ((2 * cy - r) * ks + (2 * cx - c)) 0 ≠ 0)
+    (x y : Nat) (hx : x < w) (hy : y < h) :
+    dilateFn w h ker ks cy cx (erodeFn w h ker ks cy cx (dilateFn w h ker ks cy cx (erodeFn w h ker ks cy cx src))) x y
+      = dilateFn w h ker ks cy cx (erodeFn w h ker ks cy cx src) x y
+    ∧ erodeFn w h ker ks cy cx (dilateFn w h ker ks cy cx (erodeFn w h ker ks cy cx (dilateFn w h ker ks cy cx src))) x y
+      = erodeFn w h ker ks cy cx (dilateFn w h ker ks cy cx src) x y := by
+  have hp : ((x : Int), (y : Int)) ∈ imagePts w h := (mem_imagePts w h _).mpr ⟨by simp only; omega, by simp only; omega, by simp only; omega, by simp only; omega⟩
+  have hs : ∀ p q, p ∈ imagePts w h → q ∈ imagePts w h → nbK ker ks cy cx p q = nbK ker ks cy cx q p :=
+    fun p q _ _ => C16_symmetric_se ker ks cy cx hsym p q
+  constructor
+  · have L1 := fun q hq => erodeFn_eq w h ker ks cy cx src q hq
+    have L2 := fun q hq => (dilateFn_eq w h ker ks cy cx (erodeFn w h ker ks cy cx src) q hq).trans
+      (dilateP_congr (imagePts w h) (nbK ker ks cy cx) _ _ q (L1 q hq) L1)
+    have L3 := fun q hq => (erodeFn_eq w h ker ks cy cx (dilateFn w h ker ks cy cx (erodeFn w h ker ks cy cx src)) q hq).trans
+      (erodeP_congr (imagePts w h) (nbK ker ks cy cx) _ _ q (L2 q hq) L2)
+    have L4 := fun q hq => (dilateFn_eq w h ker ks cy cx (erodeFn w h ker ks cy cx (dilateFn w h ker ks cy cx (erodeFn w h ker ks cy cx src))) q hq).trans
+      (dilateP_congr (imagePts w h) (nbK ker ks cy cx) _ _ q (L3 q hq) L3)
+    have I := (C16_open_close_idempotent (imagePts w h) (nbK ker ks cy cx) (fun p => src p.1 p.2) hs _ hp).1
+    exact (L4 _ hp).trans (I.trans (L2 _ hp).symm)
+  · have L1 := fun q hq => dilateFn_eq w h ker ks cy cx src q hq
+    have L2 := fun q hq => (erodeFn_eq w h ker ks cy cx (dilateFn w h ker ks cy cx src) q hq).trans
+      (erodeP_congr (imagePts w h) (nbK ker ks cy cx) _ _ q (L1 q hq) L1)
+    have L3 := fun q hq => (dilateFn_eq w h ker ks cy cx (erodeFn w h ker ks cy cx (dilateFn w h ker ks cy cx src)) q hq).trans
+      (dilateP_congr (imagePts w h) (nbK ker ks cy cx) _ _ q (L2 q hq) L2)
+    have L4 := fun q hq => (erodeFn_eq w h ker ks cy cx (dilateFn w h ker ks cy cx (erodeFn w h ker ks cy cx (dilateFn w h ker ks cy cx src))) q hq).trans
+      (erodeP_congr (imagePts w h) (nbK ker ks cy cx) _ _ q (L3 q hq) L3)
+    have I := (C16_open_close_idempotent (imagePts w h) (nbK ker ks cy cx) (fun p => src p.1 p.2) hs _ hp).2
+    exact (L4 _ hp).trans (I.trans (L2 _ hp).symm)
+
+/-! ### morphology: the list-level functions the driver runs (`morph`, `opening`, `closing`) -/
+
+/-- `morph` (one pass of `morph_impl` over a row-major plane) has w·h entries and entry (x, y) is `morphAt` on the plane -/
+theorem C16_morph_list (w h : Nat) (ker : List Int) (ks cy cx : Nat) (d : Bool) (plane : List Int) :
+    (morph w h ker ks cy cx d plane).length = h * w
+    ∧ ∀ x y, x < w → y < h →
+        (morph w h ker ks cy cx d plane).getD (y * w + x) 0 = morphAt (imgFn w plane) w h ker ks cy cx d x y := by
+  unfold morph
+  exact flatten_grid w (fun x y => morphAt (imgFn w plane) w h ker ks cy cx d x y) h
+
+private theorem imgFn_morph (w h : Nat) (ker : List Int) (ks cy cx : Nat) (d : Bool) (plane : List Int) (q : Int × Int) (hq : q ∈ imagePts w h) :
+    imgFn w (morph w h ker ks cy cx d plane) q.1 q.2 = morphAt (imgFn w plane) w h ker ks cy cx d q.1.toNat q.2.toNat := by
+  have hin := (mem_imagePts w h q).mp hq
+  unfold inImg at hin
+  have := (C16_morph_list w h ker ks cy cx d plane).2 q.1.toNat q.2.toNat (by omega) (by omega)
+  rw [← this]
+  unfold imgFn
+  rw [if_pos ⟨by omega, by omega⟩]
+
+/-- opening ≤ src ≤ closing for the row-major planes the model (and, by the correspondence run, the real `opening` / `closing`)
+    produces: point-symmetric structuring element, every image size, every pixel -/
+theorem C16_opening_le_src_le_closing_list (w h : Nat) (ker : List Int) (ks cy cx : Nat) (plane : List Int)
+    (hsym : ∀ r c, r < ks → c < ks → ker.getD (r * ks + c) 0 ≠ 0 →
+      2 * cy - r < ks ∧ 2 * cx - c < ks ∧ r ≤ 2 * cy ∧ c ≤ 2 * cx ∧ ker.getD ((2 * cy - r) * ks + (2 * cx - c)) 0 ≠ 0)
+    (x y : Nat) (hx : x < w) (hy : y < h) :
+    (opening w h ker ks cy cx plane).getD (y * w + x) 0 ≤ plane.getD (y * w + x) 0
+    ∧ plane.getD (y * w + x) 0 ≤ (closing w h ker ks cy cx plane).getD (y * w + x) 0 := by
+  have hp : ((x : Int), (y : Int)) ∈ imagePts w h := (mem_imagePts w h _).mpr ⟨by simp only; omega, by simp only; omega, by simp only; omega, by simp only; omega⟩
+  have hs : ∀ p q, p ∈ imagePts w h → q ∈ imagePts w h → nbK ker ks cy cx p q = nbK ker ks cy cx q p :=
+    fun p q _ _ => C16_symmetric_se ker ks cy cx hsym p q
+  have hsrc : plane.getD (y * w + x) 0 = imgFn w plane (x : Int) (y : Int) := by
+    unfold imgFn; rw [if_pos ⟨by omega, by omega⟩]; simp
+  have L := C16_opening_le_src_le_closing (imagePts w h) (nbK ker ks cy cx) (fun p => imgFn w plane p.1 p.2) hs _ hp
+  have eE : ∀ q ∈ imagePts w h, imgFn w (morph w h ker ks cy cx false plane) q.1 q.2
+      = erodeP (imagePts w h) (nbK ker ks cy cx) (fun p => imgFn w plane p.1 p.2) q :=
+    fun q hq => (imgFn_morph w h ker ks cy cx false plane q hq).trans (erodeFn_eq w h ker ks cy cx (imgFn w plane) q hq)
+  have eD : ∀ q ∈ imagePts w h, imgFn w (morph w h ker ks cy cx true plane) q.1 q.2
+      = dilateP (imagePts w h) (nbK ker ks cy cx) (fun p => imgFn w plane p.1 p.2) q :=
+    fun q hq => (imgFn_morph w h ker ks cy cx true plane q hq).trans (dilateFn_eq w h ker ks cy cx (imgFn w plane) q hq)
+  constructor
+  · have e : (opening w h ker ks cy cx plane).getD (y * w + x) 0
+        = dilateP (imagePts w h) (nbK ker ks cy cx) (erodeP (imagePts w h) (nbK ker ks cy cx) (fun p => imgFn w plane p.1 p.2)) ((x : Int), (y : Int)) := by
+      show (morph w h ker ks cy cx true (morph w h ker ks cy cx false plane)).getD (y * w + x) 0 = _
+      rw [(C16_morph_list w h ker ks cy cx true _).2 x y hx hy, (C16_morph_is_erode_dilate _ w h ker ks cy cx x y).2]
+      exact dilateP_congr (imagePts w h) (nbK ker ks cy cx) _ _ _ (eE _ hp) eE
+    rw [e, hsrc]; exact L.1
+  · have e : (closing w h ker ks cy cx plane).getD (y * w + x) 0
+        = erodeP (imagePts w h) (nbK ker ks cy cx) (dilateP (imagePts w h) (nbK ker ks cy cx) (fun p => imgFn w plane p.1 p.2)) ((x : Int), (y : Int)) := by
+      show (morph w h ker ks cy cx false (morph w h ker ks cy cx true plane)).getD (y * w + x) 0 = _
+      rw [(C16_morph_list w h ker ks cy cx false _).2 x y hx hy, (C16_morph_is_erode_dilate _ w h ker ks cy cx x y).1]
+      exact erodeP_congr (imagePts w h) (nbK ker ks cy cx) _ _ _ (eD _ hp) eD
+    rw [e, hsrc]; exact L.2
 
 /-- regression witness of the fixed finding C16-morph-se-transposed (f4ff363): a horizontal 1×3 line (a symmetric
     structuring element) dilates a single bright pixel HORIZONTALLY, in the model of the code and in the Spec alike -/
